@@ -27,6 +27,8 @@ def gen_consts(v):
         ('E131_PREVIEW_DATA_MASK', ac + 'E131Header::PREVIEW_DATA_MASK'),
         ('E131_STREAM_TERMINATED_MASK', ac + 'E131Header::STREAM_TERMINATED_MASK'),
         ('VECTOR_E131_DATA', ac + 'VECTOR_E131_DATA'),
+        ('VECTOR_ROOT_E131', ac + 'VECTOR_ROOT_E131'),
+        ('VECTOR_ROOT_E131_REV2', ac + 'VECTOR_ROOT_E131_REV2'),
         ('ARTNET_MAX_MERGE_SOURCES', an + 'ArtNetNodeImpl::MAX_MERGE_SOURCES'),
         ('ARTNET_MERGE_TIMEOUT', an + 'ArtNetNodeImpl::MERGE_TIMEOUT'),
         ('ARTNET_MAX_PORTS', an + 'ARTNET_MAX_PORTS'),
@@ -52,7 +54,7 @@ def gen_consts(v):
             f.write(new)
     return None
 
-RULE = ('histories of 1-30 packets (65% of the sACN ones as framing-layer bytes through the real E131Inflator/E131InflatorRev2 -> DMPE131Inflator chain, options byte over all combinations of preview/terminate/force-sync plus random reserved bits; the rest as constructed HeaderSets): sACN from <= 8 CIDs with priorities {0,99,100,101,200,201,255}, sequence '
+RULE = ('histories of 1-30 packets (65% of the sACN ones as whole datagrams - ACN preamble, root layer with the CID in the bytes, framing layer - through the real IncomingUDPTransport -> RootInflator -> E131Inflator/E131InflatorRev2 -> DMPE131Inflator stack, or as framing-layer bytes, options byte over all combinations of preview/terminate/force-sync plus random reserved bits; the rest as constructed HeaderSets): sACN from <= 8 CIDs with priorities {0,99,100,101,200,201,255}, sequence '
         'deltas -25..+5 (wrap-around included), gaps {0,1us,2.499999,2.5,2.500001,9.999999,10,10.000001 s, '
         'small}, terminate/preview/rev2 flags, start codes, frame lengths {0,1,2,512,513,small}, malformed DMP '
         'header/vector/increment/short PDUs, plus scripted scenarios (7th/8th source, priority hand-over both '
@@ -65,7 +67,8 @@ ASSUMPTIONS = ['time is supplied through interposed clock_gettime/gettimeofday (
                'one registered universe / one Art-Net output port per history',
                'a priority pointer is registered with SetHandler (the E1.31 plugin always passes one)',
                'DmxBuffer is used through its abstract semantics (C02)']
-TRUSTED = ['modelled rather than verified: E131Inflator/E131InflatorRev2::DecodeHeader (options byte masks, framing vector), '
+TRUSTED = ['modelled rather than verified: IncomingUDPTransport::Receive (preamble check), RootInflator (root vector dispatch, CID), '
+           'E131Inflator/E131InflatorRev2::DecodeHeader (options byte masks, framing vector), '
            'DMPE131Inflator::HandlePDUData/TrackSourceIfRequired, '
            'DecodeAddress(TWO_BYTES,RANGE_EQUAL), ArtNetNodeImpl::HandleDataPacket (size/net/universe/length '
            'clamp) and UpdatePortFromSource; DmxBuffer Set/HTPMerge/Reset as list operations; constants '
@@ -387,7 +390,7 @@ def gen_artn(rng):
     return 'artn ' + ','.join(steps)
 
 
-def to_wire(rng, payload):
+def to_wire(rng, payload, dgram=True):
     """re-express an sACN history as framing-layer bytes for the real E131Inflator / E131InflatorRev2:
     the options byte carries preview (bit 7) and terminate (bit 6) together with every combination of the
     remaining bits; rev-2 framing has no options byte"""
@@ -404,7 +407,15 @@ def to_wire(rng, payload):
         if r < 0.25 or r > 0.85:
             opts |= rng.randrange(32)          # reserved low bits
         fvec = 2 if rng.random() < 0.97 else rng.choice([0, 1, 3, 4])
-        out.append('%s:%s:%d:%d:%s:%s:%d:%s:%s:%s:%s' % (dt, cid, rev2, fvec, prio, seq, opts, u, vec, dmph, pdu))
+        step = '%s:%s:%d:%d:%s:%s:%d:%s:%s:%s:%s' % (dt, cid, rev2, fvec, prio, seq, opts, u, vec, dmph, pdu)
+        if dgram:
+            # whole datagram: ACN preamble (valid / corrupted / truncated) + root layer PDU whose vector selects
+            # the ratified or the revision-2 framing decoder (other vectors are dropped)
+            r = rng.random()
+            pre = 1 if r < 0.96 else rng.choice([0, 2])
+            rvec = (3 if rev2 else 4) if rng.random() < 0.97 else rng.choice([0, 1, 5, 8])
+            step += ':%d:%d' % (pre, rvec)
+        out.append(step)
     return 'sacnw %s %s %s' % (ip, univ, ','.join(out))
 
 
@@ -418,7 +429,7 @@ def gen_cases(rng, tier):
             c = (gen_sacn_random(rng) if r < 0.40 else gen_sacn_scripted(rng) if r < 0.66
                  else gen_sacn_static(rng))
             # most histories go through the real framing-layer decoders
-            yield to_wire(rng, c) if rng.random() < 0.65 else c
+            yield to_wire(rng, c, dgram=rng.random() < 0.8) if rng.random() < 0.65 else c
         elif r < 0.84:
             yield gen_art(rng)
         elif r < 0.92:
@@ -457,7 +468,10 @@ LEVEL_TEXT = ('Coq theorems, by induction over every packet history, about an ex
               'within 10 s and the port buffer then equals the HTP / LTP text-level output (guard: no 0.0.0.0 '
               'sender, fixed merge mode). Model tied to the C++ by a differential correspondence check after every '
               'packet (ASan/UBSan build of the /repo working tree, virtual clock, framing-layer bytes through the '
-              'real inflators) and regenerated constants.')
+              'real receive stack from whole datagrams: preamble, root layer with the CID in the bytes, ratified and revision-2 '
+              'framing) and regenerated constants. Further theorems: datagram level (c08_sacn_datagram), source caps for every '
+              'history (c08_sacn_cap, c08_artnet_node_cap), preview flag in both configurations, priorities above the maximum, '
+              'sequence window without state hypotheses (c08_sacn_window), Art-Net node level (c08_artnet_node).')
 LEVEL_NOTE = ('Trusted: Coq kernel, extraction (ExtrOcamlBasic), OCaml/C++ glue incl. the clock_gettime/'
               'gettimeofday interposers and MockUDPSocket, generator coverage of the correspondence; model = code '
               'is validated by differential testing, not proved. DmxBuffer is used through its list semantics '
